@@ -670,7 +670,8 @@ func (c *SpecCtx) call(e *ast.CallExpr) *Val {
 			func() {
 				defer func() {
 					if r := recover(); r != nil {
-						if _, isSpec := r.(specError); isSpec && c.x.sess != nil && !c.x.feasible(c.st, at) {
+						if se, isSpec := r.(specError); isSpec && strings.Contains(se.msg, "unknown identifier") {
+							// the implication then holds exactly if the antecedent is false
 							cons = nil
 							return
 						}
@@ -680,7 +681,7 @@ func (c *SpecCtx) call(e *ast.CallExpr) *Val {
 				cons = intAsBool(c.eval(e.Args[1]).T)
 			}()
 			if cons == nil {
-				return boolV(TTrue)
+				return boolV(Not(at))
 			}
 			return boolV(Implies(at, cons))
 		case "iff":
